@@ -51,7 +51,7 @@ PROPS = {
     },
     'C24': {
         'units': [{'unit': 'c24_dispatch'}],
-        'replays': [{'for': r'malformed-params-answered|C24\.initialize', 'driver': 'replay/c24', 'bin': 'replay', 'args': {'mode': 'all'}, 'thorough': True,
+        'replays': [{'for': r'malformed-params-answered|C24\.initialize', 'driver': 'replay/c24', 'bin': 'replay', 'args': {'mode': 'all'}, 'thorough': True, 'on_undecided': True,
                      'history': 'the real server (emmylua_ls::run_ls over stdio, re-executed as a child process): initialize, then requests with bogus / absent / wrongly typed params, an unknown method, a later well-formed request; a malformed initialize followed by a well-formed one; every id must get exactly one response'}],
         'level': 'proof',
         'level_text': 'The routing layer, on the real text, under the sequential-schedule abstraction of tokio (named rules async-seq-*): for EVERY request (any method string, any params) on_request_handler returns Ok(()) and the ghost log of responses handed to the connection grows by exactly one response carrying the request id - a registered method whose params deserialize is routed to its handler task (ServerContext::task sends exactly one of RequestCanceled / InternalError / the handler\'s response and removes the cancellation entry), an unknown method gets MethodNotFound, a registered method with malformed or missing params gets InvalidParams; the `dispatch_request!` macro is expanded by a unit-local rule that implements the macro definition read from the repository on every run (~40 arms); the initialize handshake of run_ls answers every initialize request exactly once (a malformed one with an error, then waits for the next) and completes; ServerMessageProcessor::handle_message answers every request and shutdown once and keeps serving; ServerContext::send / cancel.',
@@ -115,7 +115,7 @@ PROPS = {
     },
     'C39': {
         'units': [{'unit': 'c39_write'}],
-        'replays': [{'for': r'original-or-formatted-at-every-point', 'driver': 'replay/c39', 'bin': 'replay', 'args': {'mode': 'all'}, 'thorough': True,
+        'replays': [{'for': r'original-or-formatted-at-every-point', 'driver': 'replay/c39', 'bin': 'replay', 'args': {'mode': 'all'}, 'thorough': True, 'on_undecided': True,
                      'history': 'the real luafmt binary under a file-size limit: `ulimit -f 8; luafmt --write big.lua` (SIGXFSZ), the same with the signal ignored (EFBIG), `ulimit -f 0`, and two files; afterwards every target must hold its complete original or its complete formatted content'}],
         'level': 'proof',
         'level_text': 'Crash safety as a contract over a ghost file-system log (every state the file system passes through): on the real per-file write step of luafmt\'s main and the real helpers write_atomically / write_then_rename / temp_sibling, for every path, original content and formatted text: in --write mode the target holds its complete original or its complete formatted content at EVERY state (also when an operation fails or the process stops between two operations); only the target and a not previously existing temporary sibling ever change; a failed operation is reported and makes the exit status non-zero; --check / --list-different never write. Composition over several files is a proved lemma over the step contract.',
